@@ -5,25 +5,44 @@ import json, subprocess
 BUILT = [f"C{i:02d}" for i in range(1, 20)]
 
 CHECKS = {
- "C01": ("E2", "exhaustive enumeration of expression DAGs x tracking masks x roots x seeds on the real library, forward-mode reference oracle", "4.C01"),
- "C02": ("E1", "exhaustive enumeration of single-operation programs (op x parameterisation x shapes x tracked subsets x seeds) on the real library, forward-mode Jacobian oracle", "4.C02"),
- "C03": ("E1/E2", "exhaustive enumeration of broadcast shape pairs x ops x number of uses x passes on the real library; gradient dimensions and summed adjoint against the reference", "4.C03"),
- "C04": ("E1", "exhaustive enumeration of all ordered shape pairs of rank<=4 x element-wise ops on the real library against an index-definition reference (value or mandatory refusal)", "4.C04"),
- "C05": ("E1", "exhaustive enumeration of matmul configurations (sizes x transposes x leading patterns x bias forms x rank-1 forms) on the real library against the definition", "4.C05"),
- "C06": ("E1", "exhaustive enumeration of convolution geometries (image, depth, count, filter, strides, batch forms) on the real library against the sliding-window definition", "4.C06"),
- "C07": ("E1", "exhaustive enumeration of shapes x reductions / reshape targets / point-wise maps on the real library against the definitions", "4.C07"),
- "C08": ("E3", "explicit-state BFS (stateright) over a handle-pool machine whose transitions execute the real library; snapshot invariant in every state", "4.C08"),
- "C09": ("E1+E3", "exhaustive op x operand-mask enumeration plus explicit-state BFS over flag/build/pass histories executed on the real library against a tracking-semantics reference", "4.C09"),
- "C10": ("E3", "explicit-state BFS (stateright) over build/backward/clear/drop histories executed on the real library; accumulated-gradient reference and fresh-graph differential", "4.C10"),
- "C11": ("E2", "exhaustive enumeration of user-op DAGs x masks x roots on the real library; invocation-log oracle (once per node, complete adjoint, after all consumers)", "4.C11"),
- "C12": ("E2/E3", "exhaustive enumeration of base programs x handle perturbations (clone/drop/re-bind, deviation bound 2) on the real library; implementation-vs-implementation bitwise oracle", "4.C12"),
- "C13": ("E1", "exhaustive enumeration of parameter lists x gradient subsets x learning rates x two rounds on the real optimizer; bit-exact step oracle", "4.C13"),
- "C14": ("E3", "exhaustive enumeration of model configurations x batch sequences executed on the real model; reference step recomputed from observed parameters each iteration", "4.C14"),
- "C15": ("E1", "exhaustive enumeration of layer / cost / model configurations on the real library against the documented formulas", "4.C15"),
- "C16": ("E1", "exhaustive enumeration of shapes x constructors x indices x equality variants x refusals on the real library against the row-major definition", "4.C16"),
- "C17": ("E2", "exhaustive enumeration of programs x seed pairs x coefficients on the real library; metamorphic linearity oracle", "4.C17"),
- "C18": ("E3", "explicit-state BFS over build/pass/drop histories and training sequences on the real library; sole-ownership probe in every state", "4.C18"),
- "C19": ("E1/E2", "the C01-C07 exhaustive spaces re-executed on the library built with the f32 feature against the f64 reference model", "4.C19"),
+ "C01": ("E2", "exhaustive enumeration of expression DAGs (all programs up to a node bound over four op alphabets) x tracking masks x roots x seeds, plus one-deviation variants (an operand through an untracked clone, every ordered pair of passes) and fixed large structures, each executed on the real library; forward-mode reference oracle", "4.C01",
+         "Every program of the stated spaces is built and differentiated by the real library and every leaf and intermediate gradient is compared with an independent forward-mode evaluation; no graph of those spaces drops or double-counts a path."),
+ "C02": ("E1", "exhaustive enumeration of single-operation programs (op x parameterisation x operand shapes x tracked subsets x seeds, full Jacobian in the thorough tier) on the real library; forward-mode Jacobian oracle", "4.C02",
+         "Every operation instance of the stated space has its transpose-Jacobian compared entry by entry (thorough) or under two non-uniform seeds (quick) with the reference."),
+ "C03": ("E1/E2", "exhaustive enumeration of broadcast shape pairs x ops x operand position x number of uses x own-shape use x passes, reshape views and large operands, on the real library; gradient dimensions and summed adjoint against the reference", "4.C03",
+         "For every broadcast pattern of the stated space the stored gradient has exactly the array's dimensions and equals the summed adjoint, for the first and every later contribution."),
+ "C04": ("E1", "exhaustive enumeration of all ordered shape pairs of rank<=4 (sizes<=3 quick, <=5 thorough, plus long shapes) x element-wise ops x four valuations on the real library against an index-definition reference (value or mandatory refusal)", "4.C04",
+         "All shape pairs of the stated space are decided: admissible pairs give the broadcast result element by element, all others panic."),
+ "C05": ("E1", "exhaustive enumeration of matmul configurations (sizes x four transposes x all pairs of leading patterns x additive-term forms x rank-1 forms x mismatches, plus long inner dimensions) on the real library against the definition", "4.C05",
+         "Every configuration of the stated space is compared with the batched transposed product or must be refused."),
+ "C06": ("E1", "exhaustive enumeration of convolution geometries (image, depth, filter count and size, both strides, batch forms, plus large geometries) on the real library against the sliding-window definition", "4.C06",
+         "Every geometry of the stated space is compared element by element with the direct quadruple loop."),
+ "C07": ("E1", "exhaustive enumeration of shapes x sum(k) / reshape targets / point-wise maps with signed, zero, tiny, saturating and row-shifted valuations on the real library against the definitions", "4.C07",
+         "Every shape of the stated space and every parameterisation is compared with the definition, including refusals of reshape."),
+ "C08": ("E3", "explicit-state BFS (stateright) over a handle-pool machine (build incl. views and re-binding / clone / drop / flag / backward incl. caller-held seeds / clear / fetch / adopt / optimizer update); every transition replays the history on the real library; bitwise snapshot invariant in every state", "4.C08",
+         "In every reachable state of the bounded machines every pre-existing handle shows bit-identical dimensions and values after each action."),
+ "C09": ("E1+E3", "exhaustive op-instance x operand-mask sweep plus explicit-state BFS over build / flag / clone / backward / fetch / adopt histories executed on the real library against a tracking-semantics reference", "4.C09",
+         "The iff rule holds for every op instance and mask of the sweep; in every reachable state of the machines flags, gradient presence and values match the tracking semantics."),
+ "C10": ("E3", "explicit-state BFS (stateright) over build / backward / clear / drop / flag / clone / fetch histories executed on the real library; accumulated-gradient reference and fresh-graph differential; merged on reference state + probed hidden bookkeeping, with an unmerged cross-check", "4.C10",
+         "In every reachable state of the bounded machines every gradient equals the sum of the single-pass adjoints since its last clear, and every pass adds what it deposits on a fresh copy of the graph."),
+ "C11": ("E2+E3", "exhaustive enumeration of user-op DAGs x masks x roots x handle deviations (re-binding through .tracked(), dropped handles), self-product chains, and a BFS machine with pause/resume actions; invocation-log oracle", "4.C11",
+         "In every pass of the stated spaces each user closure of the differentiated graph is invoked exactly once, after its consumers, with the complete adjoint."),
+ "C12": ("E2/E3", "exhaustive enumeration of base programs x single and paired handle perturbations (clone / drop / re-bind / flag round trips / aliases / seed handles) on the real library; implementation-vs-implementation bitwise oracle", "4.C12",
+         "Every perturbed run of the stated space yields bit-identical values and gradients through every surviving alias."),
+ "C13": ("E1", "exhaustive enumeration of parameter lists x gradient subsets x learning rates x two rounds x two gradient sources, plus long lists and large parameters, on the real optimizer; per-element step oracle", "4.C13",
+         "Every update of the stated space is one step per parameter with its own gradient; frozen parameters are bitwise untouched."),
+ "C14": ("E3", "breadth-first exploration of training histories (models x batch sequences x one irregular iteration) executed on one real Model; reference step recomputed from the parameters observed after the prefix history", "4.C14",
+         "For every model and history of the stated space the returned loss and every parameter step equal the reference computed from the observed parameters."),
+ "C15": ("E1", "exhaustive enumeration of layer / cost / model configurations (incl. wide layers, strides beyond the filter, batch forms) on the real library against the documented formulas", "4.C15",
+         "Every configuration of the stated space is compared with the documented formula evaluated on the parameters read from the layer."),
+ "C16": ("E1", "exhaustive enumeration of shapes x constructors x refusals x every index x equality variants on the real library against the row-major definition", "4.C16",
+         "Every shape of the stated space: layout, refusals, every in-range index and the equality relation are decided."),
+ "C17": ("E2", "exhaustive enumeration of programs x masks x roots x seed pairs x coefficient pairs on the real library; metamorphic linearity oracle with reference error bounds; omitted seed vs ones bitwise", "4.C17",
+         "For every program of the stated spaces gradients are linear in the seed and an omitted seed equals ones."),
+ "C18": ("E3", "explicit-state BFS over build / pass / clear / drop / clone / fetch / update histories plus all forward/backward/update step sequences of three models on the real library; sole-ownership probe in every state", "4.C18",
+         "In every reachable state every leaf that the reference says nothing alive derives from converts into a Vec (sole owner)."),
+ "C19": ("E1/E2", "the C01-C07 exhaustive spaces re-executed on the library built with the f32 feature against the f64 reference model", "4.C19",
+         "Every case of the C01-C07 spaces agrees structurally (dimensions, tracking, refusal) exactly and numerically within the single-precision bound."),
 }
 
 def main():
@@ -33,7 +52,7 @@ def main():
     for pid in sorted(CHECKS):
         if pid not in BUILT:
             continue
-        eng, tech, ref = CHECKS[pid]
+        eng, tech, ref, text = CHECKS[pid]
         checks.append({
             "property_id": pid,
             "quick_cmd": f"./check {pid} --tier quick",
@@ -43,7 +62,7 @@ def main():
             "engine": eng,
             "level_claimed": {
                 "category": "model_checking",
-                "text": "Bounded exhaustive exploration of the real library: every case of the stated finite space is executed and compared with an independent reference; a clean run is a coverage statement for that space, not a sample.",
+                "text": text + " Bounded exhaustive exploration of the real library: a clean run is a coverage statement for the stated space (evidence file: states / transitions / bounds), not a sample; nothing beyond the bounds is claimed.",
                 "design_ref": ref,
             },
             "level_note": "Trusted base: the reference model in mc/src/refmodel.rs (validated against corgi's own test fixtures and finite differences), fixed generic valuations for array contents, default (non-BLAS) build. Nothing beyond the stated bounds is claimed.",
